@@ -57,6 +57,16 @@ def class_getitem_specialize(cls: type[Template], args):
     if meta.instance_exists(cls, template_arg):
         return meta.get_instance(cls, template_arg)
 
+    try:
+        return _specialize_template(cls, meta, template_arg)
+    except BaseException:
+        # the new type is added to the cache before it is complete,
+        # remove it again if the specialization fails
+        meta.instances.get(cls, {}).pop(template_arg, None)
+        raise
+
+
+def _specialize_template(cls: type[Template], meta: _TemplateMeta, template_arg):
     # instantiate and add new type early
     # so nested template types are possible
     #
